@@ -281,6 +281,17 @@ class Run:
         self.obs.append(o)
         return o
 
+    def clean(self):
+        """True when every obligation so far is discharged or a listed known finding."""
+        kn = [k for k in load_known().get("known", []) if k["property"] == self.prop]
+        for o in self.obs:
+            if o.status == "discharged":
+                continue
+            if o.status == "violated" and any(k["obligation"] == o.id and k["role"] == o.role for k in kn):
+                continue
+            return False
+        return True
+
     def samples_has(self, oid):
         return any(isinstance(x, dict) and x.get("obligation", "").endswith(oid) for x in self.samples)
 
